@@ -8,7 +8,7 @@ from param import rx
 from sx.api import assume, check, cover, untraced, pick, pickbool
 
 PROPERTY = 'C10'
-LABELS = ['C10.final_latest', 'C10.no_stale_after_newer', 'C10.plain_cancels', 'C10.rx_latest', 'C10.rx_no_stale']
+LABELS = ['C10.typed_latest', 'C10.rxgen_latest', 'C10.final_latest', 'C10.no_stale_after_newer', 'C10.plain_cancels', 'C10.rx_latest', 'C10.rx_no_stale']
 EXPLANATION = ("Harness c10.prog: N<=3 assignments to an allow_refs parameter, each a coroutine function, a two-value async "
                "generator or a plain value (symbolic kinds, the same function object may be assigned twice), the pending hand-made "
                "futures are then resolved in a solver-chosen order; harness c10.rxprog: an rx pipeline through a coroutine with 2-3 "
@@ -22,6 +22,10 @@ ASSUMPTIONS = ["completion choices index into the list of still-pending futures;
 
 class P(param.Parameterized):
     x = param.Parameter(default=None, allow_refs=True)
+
+
+class PI(param.Parameterized):
+    n = param.Integer(default=0, allow_refs=True)
 
 
 def prog(n: int, k1: int, k2: int, k3: int, same: bool, c1: int, c2: int, c3: int, c4: int, c5: int) -> None:
@@ -113,6 +117,127 @@ def prog(n: int, k1: int, k2: int, k3: int, same: bool, c1: int, c2: int, c3: in
 prog.ranges = lambda consts: dict(k1=(0, 2), k2=(0, 2), k3=(0, 2), c1=(0, 5), c2=(0, 5), c3=(0, 5), c4=(0, 5), c5=(0, 5))
 
 
+def typed(o1: int, o2: int, o3: int, o4: int, o5: int, c1: int, c2: int, c3: int, c4: int, c5: int) -> None:
+    """Integer parameter driven by coroutines; an async result may be invalid for the parameter (rejected inside the task).
+    Steps: 0 assign a coroutine delivering a valid int, 1 assign a coroutine delivering an invalid value, 2 assign a plain
+    value, 3 complete the c-th pending future; remaining futures are completed at the end in index order."""
+    with untraced():
+        p = PI()
+    state = {'last': None}
+
+    async def main():
+        loop = asyncio.get_running_loop()
+        futs = []
+        nassign = 0
+
+        def mk(i, kind):
+            if kind == 2:
+                return 100 + i
+            f = loop.create_future()
+            futs.append((i, kind, f))
+
+            async def co():
+                return await f
+            return co
+        for o, c in ((o1, c1), (o2, c2), (o3, c3), (o4, c4), (o5, c5)):
+            o = pick(o, 0, 3)
+            if o == 3:
+                pend = [t for t in futs if not t[2].done()]
+                assume(len(pend) > 0 and 0 <= c < len(pend))
+                c = pick(c, 0, len(pend) - 1)
+                i, kind, f = pend[c]
+                f.set_result((10 + i) if kind == 0 else 'bad')
+            else:
+                assume(nassign < 3)
+                p.n = mk(nassign, o)
+                state['last'] = (nassign, o)
+                nassign += 1
+            for _ in range(5):
+                await asyncio.sleep(0)
+        for (i, kind, f) in futs:
+            if not f.done():
+                f.set_result((10 + i) if kind == 0 else 'bad')
+                for _ in range(5):
+                    await asyncio.sleep(0)
+        for _ in range(5):
+            await asyncio.sleep(0)
+    loop = asyncio.new_event_loop()
+    loop.set_exception_handler(lambda l, c: None)      # a rejected async result is reported to the loop's handler
+    try:
+        loop.run_until_complete(main())
+    finally:
+        loop.close()
+    assume(state['last'] is not None)
+    i, kind = state['last']
+    info = {'last': [i, kind], 'n': p.n}
+    if kind == 2:
+        check('C10.typed_latest', p.n == 100 + i, info)
+    elif kind == 0:
+        check('C10.typed_latest', p.n == 10 + i, info)
+    else:
+        check('C10.typed_latest', True)      # the latest reference delivered an invalid value: nothing to hold
+
+
+typed.ranges = lambda consts: dict(o1=(0, 2), o2=(0, 3), o3=(0, 3), o4=(0, 3), o5=(0, 3), c1=(0, 2), c2=(0, 2), c3=(0, 2), c4=(0, 2), c5=(0, 2))
+
+
+def rxgen(c1: int, c2: int, c3: int) -> None:
+    """rx pipeline through an async generator (two items per input); a newer input arrives while the old generator is
+    suspended before its second item; the remaining three items arrive in a solver-chosen order."""
+    state = {}
+
+    async def main():
+        loop = asyncio.get_running_loop()
+        gates = {}
+
+        def gate(v, k):
+            if (v, k) not in gates:
+                gates[(v, k)] = loop.create_future()
+            return gates[(v, k)]
+
+        async def stream(v):
+            for k in range(2):
+                yield await asyncio.shield(gate(v, k))
+        src = rx(0)
+        out = src.rx.pipe(stream)
+        seen = []
+        out.rx.watch(seen.append)
+        out.rx.value
+        for _ in range(8):
+            await asyncio.sleep(0)
+        gate(0, 0).set_result('in0-item0')
+        for _ in range(8):
+            await asyncio.sleep(0)
+        src.rx.value = 1
+        out.rx.value
+        for _ in range(8):
+            await asyncio.sleep(0)
+        rest = [(0, 1), (1, 0), (1, 1)]
+        for c in (c1, c2, c3):
+            pend = [g for g in rest if not gate(*g).done()]
+            if not pend:
+                break
+            assume(0 <= c < len(pend))
+            c = pick(c, 0, len(pend) - 1)
+            v, k = pend[c]
+            assume(k == 0 or gate(v, 0).done())
+            gate(v, k).set_result('in%d-item%d' % (v, k))
+            for _ in range(8):
+                await asyncio.sleep(0)
+        assume(all(gate(*g).done() for g in rest))
+        state['final'] = out.rx.value
+        state['seen'] = [x for x in seen if isinstance(x, str)]
+    loop = asyncio.new_event_loop()
+    try:
+        loop.run_until_complete(main())
+    finally:
+        loop.close()
+    check('C10.rxgen_latest', state['final'] == 'in1-item1', {'final': repr(state['final']), 'seen': repr(state['seen'])})
+
+
+rxgen.ranges = lambda consts: dict(c1=(0, 2), c2=(0, 2), c3=(0, 2))
+
+
 def rxprog(n: int, c1: int, c2: int, c3: int) -> None:
     """src = rx(1); out = src.rx.pipe(slow); n-1 further root updates; completions in a solver-chosen order."""
     state = {}
@@ -178,6 +303,11 @@ def shards(tier):
                     c.update(k3=0)
                 out.append(dict(name='n%d_k%d_s%d' % (n, k1, same), module='harness.c10', fn='prog', consts=c,
                                 budget_s=60 if q else 300))
+    for o1 in range(3):
+        for o2 in range(4):
+            out.append(dict(name='typed_%d%d' % (o1, o2), module='harness.c10', fn='typed', consts=dict(o1=o1, o2=o2, c1=0),
+                            budget_s=60 if q else 300))
+    out.append(dict(name='rxgen', module='harness.c10', fn='rxgen', consts={}, budget_s=60 if q else 300))
     for n in (2, 3):
         out.append(dict(name='rx_n%d' % n, module='harness.c10', fn='rxprog', consts=dict(n=n), budget_s=60 if q else 300))
     return out
